@@ -26,6 +26,8 @@
 #include <boost/fusion/container/map.hpp>
 #include <boost/fusion/include/push_back.hpp>
 #include <boost/fusion/include/make_vector.hpp>
+#include <boost/fusion/include/erase_key.hpp>
+#include <boost/fusion/include/as_map.hpp>
 
 #include <boost/type_traits/is_base_of.hpp>
 #include <boost/type_traits/is_same.hpp>
@@ -197,22 +199,23 @@ struct dispatch_table
         }
     };
 
+    // adds transition T to the sequence stored for its source state, keeping the entries of all other states
     template <class T, class Map>
     struct push_to_map_of_vec
     {
+        typedef typename transition_source_type<T>::type source_state;
+        typedef typename ::boost::fusion::result_of::make_pair<
+            source_state,
+            typename ::boost::mpl::push_back<
+                typename ::boost::fusion::result_of::value_at_key<Map,source_state>::type,
+                typename change_frow_event<T>::type
+            >::type
+        >::type updated_entry;
         typedef typename
         boost::fusion::result_of::as_map<
-            typename boost::fusion::result_of::make_vector<
-                typename ::boost::fusion::result_of::make_pair<
-                    typename transition_source_type<T>::type,
-                    typename ::boost::mpl::push_back<
-                        typename ::boost::fusion::result_of::value_at_key<
-                            Map,
-                            typename transition_source_type<T>::type
-                        >::type,
-                        typename change_frow_event<T>::type
-                    >::type
-                >::type
+            typename boost::fusion::result_of::push_back<
+                typename boost::fusion::result_of::erase_key<Map,source_state>::type,
+                updated_entry
             >::type
         >::type type;
     };
